@@ -246,3 +246,5 @@ Print Assumptions C11_life_all_modes_callable.
 Print Assumptions C11_glider_all_modes.
 Print Assumptions C11_block_still_all_modes.
 Print Assumptions C11_blinker_all_modes.
+From CPL Require Import gen.GenFuns GenProps.C11Src. (* source tie: gen/GenFuns.v is regenerated from ca_functions2d.py on every run *)
+Theorem C11_source_tie : forall n : list (list Z), src_game_of_life_rule n = gol_rule n. Proof. exact C11_source_translation_agrees. Qed. Print Assumptions C11_source_tie.
